@@ -91,6 +91,10 @@ def gen_program(sim, size_hint, writable):
             prog.append(["flush"])
         elif k == 14 and writable:
             prog.append(["truncate", sim.choose(size_hint + 30)])
+        elif k == 15 and writable:
+            # back to (or next to) the offset at which the latest write began: with the write still in the
+            # buffer this is the file's own idea of "where I am" before the pending bytes
+            prog.append(["seekback", (0, 0, 0, 1, -1)[sim.choose(5)]])
         else:
             prog.append(["tell"])
     return prog
@@ -237,9 +241,18 @@ def run_case(sim, s, case, fi):
         return
     if pipelined:
         rf.set_pipelined(True)
+    last_write = 0
     for i, op in enumerate(prog):
         if op[0] == "seek":
             op = clamp_seek(op, lf, s.lpath(name))
+        elif op[0] == "seekback":
+            op = ["seek", max(0, last_write + op[1]), 0]
+            sim.probe("seek_to_start_of_latest_write")
+        elif op[0] == "write":
+            try:
+                last_write = lf.tell()
+            except Exception:
+                pass
         lres = rres = None
         lex = rex = None
         try:
